@@ -209,6 +209,7 @@ namespace pika::concurrency::detail {
 
         void stabilize_left(anchor_pair& lrs)
         {
+            PIKA_VERIF_POINT("dq.stab", this, 0, 0);
             // Get the right node of the leftmost pointer held by lrs and its ABA
             // tag (tagged_ptr).
             node_pointer prev = lrs.get_left_ptr()->right.load(std::memory_order_acquire);
@@ -238,6 +239,7 @@ namespace pika::concurrency::detail {
 
         void stabilize_right(anchor_pair& lrs)
         {
+            PIKA_VERIF_POINT("dq.stab", this, 0, 0);
             // Get the left node of the rightmost pointer held by lrs and its ABA
             // tag (tagged_ptr).
             node_pointer prev = lrs.get_right_ptr()->left.load(std::memory_order_acquire);
@@ -323,6 +325,7 @@ namespace pika::concurrency::detail {
             {
                 // Load the anchor.
                 anchor_pair lrs = anchor_.lrs(std::memory_order_relaxed);
+                PIKA_VERIF_POINT("dq.lrs", this, lrs.get_left_tag(), 0);
 
                 // Check if the deque is empty.
                 // FIXME: Should we check both pointers here?
@@ -378,6 +381,7 @@ namespace pika::concurrency::detail {
             {
                 // Load the anchor.
                 anchor_pair lrs = anchor_.lrs(std::memory_order_relaxed);
+                PIKA_VERIF_POINT("dq.lrs", this, lrs.get_left_tag(), 0);
 
                 // Check if the deque is empty.
                 // FIXME: Should we check both pointers here?
@@ -426,6 +430,7 @@ namespace pika::concurrency::detail {
             {
                 // Load the anchor.
                 anchor_pair lrs = anchor_.lrs(std::memory_order_relaxed);
+                PIKA_VERIF_POINT("dq.lrs", this, lrs.get_left_tag(), 0);
 
                 // Check if the deque is empty.
                 // FIXME: Should we check both pointers here?
@@ -486,6 +491,7 @@ namespace pika::concurrency::detail {
             {
                 // Load the anchor.
                 anchor_pair lrs = anchor_.lrs(std::memory_order_relaxed);
+                PIKA_VERIF_POINT("dq.lrs", this, lrs.get_left_tag(), 0);
 
                 // Check if the deque is empty.
                 // FIXME: Should we check both pointers here?
